@@ -28,6 +28,7 @@ pub struct RegDriverSends {
     pub broadcast_reg2: Option<[u8; SRTLA_TYPE_REG2_LEN]>,
 }
 
+#[cfg_attr(feature = "verif-hooks", derive(Clone))]
 pub struct SrtlaRegistrationManager {
     pub srtla_id: [u8; SRTLA_ID_LEN],
     pending_reg2_idx: Option<usize>,
@@ -349,5 +350,52 @@ impl SrtlaRegistrationManager {
 
     pub fn set_broadcast_reg2_pending(&mut self, value: bool) {
         self.broadcast_reg2_pending = value;
+    }
+}
+
+/// Read-only copy of the manager's private state for the verification harness.
+#[cfg(feature = "verif-hooks")]
+#[derive(Clone, Debug, PartialEq, Eq)]
+pub struct VerifRegPrivate {
+    pub srtla_id: [u8; SRTLA_ID_LEN],
+    pub pending_reg2_idx: Option<usize>,
+    pub pending_timeout_at_ms: u64,
+    pub active_connections: usize,
+    pub has_connected: bool,
+    pub broadcast_reg2_pending: bool,
+    pub reg1_target_idx: Option<usize>,
+    pub reg1_next_send_at_ms: u64,
+    /// 0 NotStarted, 1 Probing, 2 WaitingForProbes, 3 Complete
+    pub probing_state: u8,
+    pub probe_id: [u8; SRTLA_ID_LEN],
+    /// `(conn_idx, probe_sent_ms, rtt_ms)`
+    pub probe_results: Vec<(usize, u64, Option<u64>)>,
+}
+
+#[cfg(feature = "verif-hooks")]
+impl SrtlaRegistrationManager {
+    pub fn verif_private(&self) -> VerifRegPrivate {
+        VerifRegPrivate {
+            srtla_id: self.srtla_id,
+            pending_reg2_idx: self.pending_reg2_idx,
+            pending_timeout_at_ms: self.pending_timeout_at_ms,
+            active_connections: self.active_connections,
+            has_connected: self.has_connected,
+            broadcast_reg2_pending: self.broadcast_reg2_pending,
+            reg1_target_idx: self.reg1_target_idx,
+            reg1_next_send_at_ms: self.reg1_next_send_at_ms,
+            probing_state: match self.probing_state {
+                ProbingState::NotStarted => 0,
+                ProbingState::Probing => 1,
+                ProbingState::WaitingForProbes => 2,
+                ProbingState::Complete => 3,
+            },
+            probe_id: self.probe_id,
+            probe_results: self
+                .probe_results
+                .iter()
+                .map(|r| (r.conn_idx, r.probe_sent_ms, r.rtt_ms))
+                .collect(),
+        }
     }
 }
